@@ -251,7 +251,7 @@ func runC10(c *mon.Ctx) {
 	pool := NewPool(c.Rand("pool"), 40)
 	or := &c10oracle{cache: map[string]bool{}}
 	readers := c10readers()
-	nb := c.Pick(96, 1600)
+	nb := c.Pick(96, 8000)
 	for b := 0; b < nb; b++ {
 		if !c.Mine(b) {
 			continue
